@@ -36,18 +36,27 @@ def load_catalogue():
 # generated worlds with ties and collisions
 
 
-def phased_copy(world, truth="main", tag="PS", samples=None, unsorted_ps=False):
-    """the world's VCF with the truth written as phase (sets = chromosomes, or split in two)"""
+def phased_copy(world, truth="main", tag="PS", samples=None, unsorted_ps=False, nsets=1):
+    """the world's VCF with the truth written as phase (nsets contiguous phase sets per chromosome and sample)"""
     w = copy.deepcopy(world)
     cores = [r for r in w["records"] if r.get("core")]
     first = {}
+    nhet = {}
+    for k, r in enumerate(cores):
+        for s in (samples or w["samples"]):
+            if len(set(h[k] for h in w["truth"][truth][s])) > 1:
+                nhet[(r["chrom"], s)] = nhet.get((r["chrom"], s), 0) + 1
+    seen = {}
     for k, r in enumerate(cores):
         for s in (samples or w["samples"]):
             haps = w["truth"][truth][s]
             al = [h[k] for h in haps]
             if len(set(al)) < 2:
                 continue
-            ps = first.setdefault((r["chrom"], s), r["pos"] + 1)
+            j = seen.get((r["chrom"], s), 0)
+            seen[(r["chrom"], s)] = j + 1
+            g = j * max(1, nsets) // max(1, nhet[(r["chrom"], s)])
+            ps = first.setdefault((r["chrom"], s, g), r["pos"] + 1)
             if "PS" not in r["format"]:
                 r["format"].append("PS")
                 for s2 in w["samples"]:
@@ -71,8 +80,19 @@ def make_generated(rng, kind):
             k = per.get(r["sample"], 0)
             per[r["sample"]] = k + 1
             r["name"] = "read_%d" % k
+        # linked reads: groups of 2-4 reads of a sample share a BX tag (not necessarily the same haplotype: ties and conflicts)
+        if rng.random() < 0.6:
+            pool = [r for r in w["libs"]["L0"]["reads"] if rng.random() < 0.6]
+            rng.shuffle(pool)
+            g = 0
+            while pool:
+                n = rng.choice([2, 2, 3, 4])
+                grp, pool = pool[:n], pool[n:]
+                for r in grp:
+                    r["tags"] = [["BX", "ACGTACGT-%d" % g]]
+                g += 1
         files = [{"kind": "ref", "name": "ref.fa"}, {"kind": "bam", "lib": "L0", "name": "reads.bam"},
-                 {"kind": "vcfgz", "name": "phased.vcf.gz", "phased": "PS"}]
+                 {"kind": "vcfgz", "name": "phased.vcf.gz", "phased": "PS", "nsets": rng.choice([1, 2, 3, 4])}]
         base = {"world": W.clean_world(w), "files": files, "stdout": None, "expect_exit": 0}
         out.append(dict(base, name="gen-haplotag-collide", subcommand="haplotag",
                         argv=["haplotag", "-o", "{out:tagged.bam}", "--output-haplotag-list", "{out:list.tsv}", "--reference", "{W}/ref.fa",
@@ -96,6 +116,10 @@ def make_generated(rng, kind):
         out.append(dict(base, name="gen-haplotag-sample-subset", subcommand="haplotag",
                         argv=["haplotag", "-o", "{out:tagged.bam}", "--output-haplotag-list", "{out:list.tsv}", "--reference", "{W}/ref.fa",
                               "--sample", w["samples"][-1], "--sample", w["samples"][0], "--ignore-linked-read",
+                              "--output-threads", "{othreads}", "{W}/phased.vcf.gz", "{W}/reads.bam"]))
+        out.append(dict(base, name="gen-haplotag-ignore-rg-samples", subcommand="haplotag",
+                        argv=["haplotag", "-o", "{out:tagged.bam}", "--output-haplotag-list", "{out:list.tsv}", "--reference", "{W}/ref.fa",
+                              "--ignore-read-groups", "--sample", w["samples"][-1], "--sample", w["samples"][0],
                               "--output-threads", "{othreads}", "{W}/phased.vcf.gz", "{W}/reads.bam"]))
         out.append(dict(base, name="gen-haplotag-collide-gzlist", subcommand="haplotag",
                         argv=["haplotag", "-o", "{out:tagged.bam}", "--output-haplotag-list", "{out:list.tsv.gz}", "--no-reference",
@@ -142,6 +166,44 @@ def make_generated(rng, kind):
         out.append(dict(base, name="gen-polyphase-blocks-B1", subcommand="polyphase",
                         argv=["polyphase", "-o", "{out:phased.vcf}", "--ploidy", str(ploidy), "--reference", "{W}/ref.fa", "--threads", "{threads}",
                               "-B", rng.choice(["0", "1", "3", "5"]), "--include-haploid-sets", "{W}/in.vcf", "{W}/reads.bam"]))
+    elif kind == "readlists":
+        # split / stats / compare on multi-sample, multi-chromosome data with ties: equally large phased blocks,
+        # read names occurring in two blocks, reads listed as 'none'
+        names = rng.choice([["s1", "s2", "s3"], ["NA12878", "NA12891", "NA12892"], ["b", "a", "C"]])
+        w = W.gen_core(rng, n_chroms=2, n_samples=rng.choice([2, 3]), sample_names=names, kinds=["snv"], length=rng.choice([600, 900]), het_rate=0.9)
+        W.add_alt_truth(rng, w, "alt", flip_rate=0.3)
+        W.gen_library(rng, w, "L0", depth=rng.choice([3, 5]), read_len=(150, 400), samples=w["samples"][:1])
+        lines = ["#readname\thaplotype\tphaseset\tchromosome"]
+        reads = w["libs"]["L0"]["reads"]
+        per_chrom = {}
+        for r in reads:
+            per_chrom.setdefault(r["chrom"], []).append(r)
+        for ci, lst in sorted(per_chrom.items()):
+            cname = w["chroms"][ci]["name"]
+            half = max(1, len(lst) // 2)
+            # two blocks of exactly the same size per chromosome: --only-largest-block has to break a tie
+            for j, r in enumerate(lst[:2 * half]):
+                block = 100 if j < half else 5000
+                lines.append("%s\t%s\t%d\t%s" % (r["name"], "H%d" % (r["hap"] + 1), block, cname))
+            for r in lst[2 * half:]:
+                lines.append("%s\tnone\tnone\t%s" % (r["name"], cname))
+        files = [{"kind": "ref", "name": "ref.fa"}, {"kind": "bam", "lib": "L0", "name": "reads.bam"},
+                 {"kind": "vcf", "name": "truth.vcf", "phased": "PS"}, {"kind": "vcf", "name": "alt.vcf", "phased": "PS", "truth": "alt"},
+                 {"kind": "text", "name": "list.tsv", "text": "\n".join(lines) + "\n"},
+                 {"kind": "text", "name": "chr-lengths.txt", "text": "".join("%s\t%d\n" % (c["name"], len(c["seq"])) for c in w["chroms"])}]
+        base = {"world": W.clean_world(w), "files": files, "stdout": None, "expect_exit": 0}
+        out.append(dict(base, name="gen-split-largest-block", subcommand="split",
+                        argv=["split", "--output-h1", "{out:h1.bam}", "--output-h2", "{out:h2.bam}", "--output-untagged", "{out:un.bam}",
+                              "--only-largest-block", "--read-lengths-histogram", "{out:hist.tsv}", "{W}/reads.bam", "{W}/list.tsv"]))
+        out.append(dict(base, name="gen-split-add-untagged", subcommand="split",
+                        argv=["split", "--output-h1", "{out:h1.bam}", "--output-h2", "{out:h2.bam}", "--add-untagged", "--discard-unknown-reads",
+                              "{W}/reads.bam", "{W}/list.tsv"]))
+        out.append(dict(base, name="gen-stats-multisample", subcommand="stats", stdout="text",
+                        argv=["stats", "--tsv", "{out:stats.tsv}", "--block-list", "{out:blocks.tsv}", "--gtf", "{out:blocks.gtf}",
+                              "--chr-lengths", "{W}/chr-lengths.txt", "{W}/truth.vcf"]))
+        out.append(dict(base, name="gen-compare-multisample", subcommand="compare", stdout="text",
+                        argv=["compare", "--sample", w["samples"][-1], "--tsv-pairwise", "{out:pair.tsv}", "--switch-error-bed", "{out:sw.bed}",
+                              "--longest-block-tsv", "{out:lb.tsv}", "--names", "truth,alt", "{W}/truth.vcf", "{W}/alt.vcf"]))
     elif kind == "polyploid-deep":
         # several read-disconnected blocks of very different depth: many distinct allele-depth profiles, more pool tasks
         ploidy = 4
@@ -219,7 +281,7 @@ def make_generated(rng, kind):
     return out
 
 
-GEN_KINDS = ["haplotag-collide", "multisample-phase", "compare-names", "polyploid-blocks", "polyploid-deep", "pedigree"]
+GEN_KINDS = ["haplotag-collide", "multisample-phase", "compare-names", "polyploid-blocks", "polyploid-deep", "pedigree", "readlists"]
 
 
 def materialise_world(sc, dirpath):
@@ -236,7 +298,7 @@ def materialise_world(sc, dirpath):
         elif f["kind"] in ("vcf", "vcfgz"):
             ww = w
             if f.get("phased"):
-                ww = phased_copy(w, truth=f.get("truth", "main"), tag=f["phased"])
+                ww = phased_copy(w, truth=f.get("truth", "main"), tag=f["phased"], nsets=f.get("nsets", 1))
             if f.get("rename"):
                 ww = copy.deepcopy(ww)
                 ren = f["rename"]
